@@ -151,9 +151,9 @@ pub fn explore(run: &WrRun) -> Outcome {
     while let Some(id) = queue.pop_front() {
         let depth = nodes[id as usize].depth as usize;
         let path = path_to(&nodes, id as usize);
-        crate::watchdog::enter(|| {
-            serde_json::to_string(&json!({"property": run.property, "hang_at": replay_doc(run.e, wbits, run.wrapper, "rec", "flush", &path)})).unwrap()
-        });
+        crate::watchdog::set_context(serde_json::to_string(&json!({"base": replay_doc(run.e, wbits, run.wrapper, "rec", "flush", &[]), "alphabet": []})).unwrap());
+        crate::watchdog::set_aux(u64::MAX);
+        crate::watchdog::enter(|| serde_json::to_string(&path).unwrap());
         let mut node_bad = false;
         if run.real_backends {
             let is_leaf = !run.fixpoint && depth >= run.depth;
